@@ -148,7 +148,7 @@ def bind_totals(traces, verdicts):
 def cfg_key(t):
     p = t["p"]
     return (t["cls"], p["max_n"], p["ram"], p["disk"], p["traj"], p["st"], p["period"],
-            p["uf"], p["ub"], p["wd"], p["rd"], t.get("N"), t.get("path", 0))
+            p["uf"], p["ub"], p["wd"], p["rd"], p.get("scale", 1), t.get("N"), t.get("path", 0))
 
 
 def describe(t):
@@ -166,6 +166,8 @@ def describe(t):
         s = f"HRevolve({p['max_n']},{p['ram']},{p['disk']},uf={p['uf']},ub={p['ub']},wd={p['wd']},rd={p['rd']})"
     else:
         s = f"{c}({p['max_n']},{p['ram']},uf={p['uf']},ub={p['ub']},wd={p['wd']},rd={p['rd']})"
+    if p.get("scale", 1) != 1:
+        s += f" [costs/{p['scale']}]"
     if "calls" in t:
         s += f" calls={t['calls']}"
     return s
